@@ -4,10 +4,10 @@ CONSTANTS
   Accounts <- MAccounts
   Collector = "coll"
   DefaultLimit = 8
-  DiffVals <- MDiffsQ
+  DiffVals <- MDiffs
   ParamVals <- MParams
-  PriceVals = {1, 2}
-  LimitVals = {0, 3}
+  PriceVals = {1, 2, 3}
+  LimitVals = {0, 2, 5}
   MaxLen = 2
   InitBal = 10
 INIT Init
